@@ -493,17 +493,36 @@ type Axiom struct {
 	Uses    []string // lemma: which axioms/lemmas to use (default: all axioms)
 }
 
+type ClosureSpec struct {
+	Text string
+	File string
+	Line int
+}
+
 type SpecDB struct {
+	Closures []*ClosureSpec
 	Funcs   map[string]*FuncSpec // key: pkg + "." + Key
 	SpecFns map[string]*SpecFn
 	Axioms  []*Axiom
 	Guarded map[string]string // "pkg.Type.field" -> lock expression text
 	Order   []string
 	Ghosts  map[string]string // ghost global name ($now) -> type
+	Traces  map[string]bool   // named ghost traces: "$tr", "$wire", ...
+}
+
+// IsTrace reports whether name is a declared trace array ($wire).
+func (db *SpecDB) IsTrace(name string) bool { return db.Traces[name] }
+
+// IsTraceLen reports whether name is the length of a declared trace ($wirelen).
+func (db *SpecDB) IsTraceLen(name string) (string, bool) {
+	if strings.HasSuffix(name, "len") && db.Traces[strings.TrimSuffix(name, "len")] {
+		return strings.TrimSuffix(name, "len"), true
+	}
+	return "", false
 }
 
 func NewSpecDB() *SpecDB {
-	return &SpecDB{Funcs: map[string]*FuncSpec{}, SpecFns: map[string]*SpecFn{}, Guarded: map[string]string{}, Ghosts: map[string]string{}}
+	return &SpecDB{Funcs: map[string]*FuncSpec{}, SpecFns: map[string]*SpecFn{}, Guarded: map[string]string{}, Ghosts: map[string]string{}, Traces: map[string]bool{"$tr": true, "$log": true}}
 }
 
 var clauseKeywords = map[string]bool{
@@ -511,7 +530,7 @@ var clauseKeywords = map[string]bool{
 	"property": true, "safety": true, "attr": true, "let": true, "requires": true, "ensures": true,
 	"modifies": true, "loop": true, "invariant": true, "decreases": true, "ghost": true, "step": true,
 	"package": true, "guarded_by": true, "params": true, "results": true, "init": true, "assert": true,
-	"emits": true, "callpre": true, "maintains": true, "ghostvar": true,
+	"emits": true, "callpre": true, "maintains": true, "ghostvar": true, "trace": true, "closure": true, "bind": true,
 }
 
 // LoadSpecFile reads //@ lines (or all lines for .spec files).
@@ -629,6 +648,13 @@ func (db *SpecDB) LoadSpecFile(path string, trusted bool) error {
 				return fail("%v", err)
 			}
 			db.Axioms = append(db.Axioms, &Axiom{Name: name, Expr: e, Text: body, IsLemma: c.kw == "lemma", Tags: tags, File: path, Line: c.line, Trusted: trusted, Uses: uses})
+		case "trace":
+			if !strings.HasPrefix(text, "$") {
+				return fail("trace $name")
+			}
+			db.Traces[strings.TrimSpace(text)] = true
+		case "closure":
+			db.Closures = append(db.Closures, &ClosureSpec{Text: text, File: path, Line: c.line})
 		case "ghostvar":
 			parts := strings.Fields(text)
 			if len(parts) != 2 || !strings.HasPrefix(parts[0], "$") {
@@ -694,6 +720,19 @@ func (db *SpecDB) LoadSpecFile(path string, trusted bool) error {
 						return fail("%v", err)
 					}
 					cl.Expr = e
+				case "bind":
+					// bind name type := call <callee key> <n>
+					i := strings.Index(text, ":=")
+					if i < 0 {
+						return fail("bind name type := call key n")
+					}
+					parts := strings.Fields(text[:i])
+					rhs := strings.Fields(text[i+2:])
+					if len(parts) != 2 || len(rhs) != 3 || rhs[0] != "call" {
+						return fail("bind name type := call key n")
+					}
+					cl.Name, cl.Type = parts[0], parts[1]
+					cl.Text = rhs[1] + " " + rhs[2]
 				case "ghost":
 					// ghost name type [:= init]
 					rest := text
